@@ -120,3 +120,25 @@ Proof. exact @clamp_effect_on_tree. Qed.
 Print Assumptions C09_code_weights_are_gate_products.
 Print Assumptions C09_code_weights_form_a_distribution.
 Print Assumptions C09_clamp_effect_is_negligible.
+
+(* ---------- end to end: weights as coded -> ANY top-weighted active set -> renormalisation -> aggregation ---------- *)
+Require Import XV.Real.SoftEnd.
+(* whatever set of leaves the truncation keeps (top-weighted, non-empty): non-negative weights summing to one, output in the convex hull of the leaf values *)
+Theorem C09_truncated_weights_form_a_distribution : forall w act, Forall (fun x => 0 < x) w -> active_ok w act ->
+  Forall (fun x => 0 <= x) (trunc_out w act) /\ SoftReal.rsum (trunc_out w act) = 1.
+Proof. exact trunc_out_distribution. Qed.
+Theorem C09_soft_prediction_in_convex_hull : forall w act vals lo hi, Forall (fun x => 0 < x) w -> active_ok w act -> length vals = length w ->
+  (forall i, (i < length w)%nat -> lo <= nth i vals 0 <= hi) -> lo <= soft_pred (trunc_out w act) vals <= hi.
+Proof. exact soft_pred_in_hull. Qed.
+(* T -> 0+: with margin mu on the hard path (|logit| >= mu at each of its D gates, D e^-mu < 1/2, no leaf below e^-50), for EVERY keep fraction and leaf cap
+   the soft prediction of the tree is within D e^-mu B of the hard-routed leaf's value (B bounds the spread of the leaf values) *)
+Theorem C09_soft_prediction_converges_to_hard : forall (L : Type) (tiny : R) (z : nat -> R) (T : tree L) (act : list bool) (vals : list R) (h : nat) (d : L * gpath) (mu B : R),
+  tiny <= 1 -> 0 <= mu -> 0 <= B -> (forall mp, In mp (paths T) -> -50 <= path_logp z (snd mp)) ->
+  let W := code_weights tiny (map (code_path_logp z) (map snd (paths T))) in let p := snd (nth h (paths T) d) in
+  (h < length (paths T))%nat -> (forall g, In g p -> consistent z g /\ mu <= Rabs (z (fst g))) -> INR (length p) * exp (- mu) < 1 / 2 ->
+  active_ok W act -> length vals = length (paths T) -> (forall i, (i < length (paths T))%nat -> Rabs (nth i vals 0 - nth h vals 0) <= B) ->
+  Rabs (soft_pred (trunc_out W act) vals - nth h vals 0) <= INR (length p) * exp (- mu) * B.
+Proof. exact @soft_tree_pred_close_to_hard. Qed.
+Print Assumptions C09_truncated_weights_form_a_distribution.
+Print Assumptions C09_soft_prediction_in_convex_hull.
+Print Assumptions C09_soft_prediction_converges_to_hard.
